@@ -851,6 +851,12 @@ pub fn replay(args: &[String]) -> i32 {
   };
   let show_log = flag(args, "--log");
   let watchdog = Duration::from_secs(arg_u64(args, "--watchdog", 60));
+  // `--expect-key K --expect-answer <class><digest>`: exit code 1 as soon as an evaluation of K
+  // differs from the expected (cold) answer. Used to let Miri's many-seeds search find a seed —
+  // i.e. one exactly repeatable schedule — under which a race found by the stress sub-check shows.
+  let expect_key: Option<String> = arg(args, "--expect-key").map(|s| s.to_string());
+  let expect_answer: Option<String> = arg(args, "--expect-answer").map(|s| s.to_string());
+  let mut unexpected = false;
   let text = match std::fs::read_to_string(path) {
     Ok(t) => t,
     Err(e) => {
@@ -878,6 +884,11 @@ pub fn replay(args: &[String]) -> i32 {
     evals.sort_by_key(|e| e.seq.0);
     for e in evals {
       println!("E {} {} {} {} {:016x} {}{} ## {}", i, e.tid, e.op, e.class, e.digest, e.key, if e.from_handle { " @handle" } else { "" }, e.text.replace('\n', " "));
+      if let (Some(k), Some(a)) = (&expect_key, &expect_answer) {
+        if &e.key == k && &format!("{}{:016x}", e.class, e.digest) != a {
+          unexpected = true;
+        }
+      }
       if let Some((c, d, t)) = &e.rnew {
         println!("N {} {} {} {} {:016x} {} ## {}", i, e.tid, e.op, c, d, e.key, t.replace('\n', " "));
       }
@@ -896,6 +907,10 @@ pub fn replay(args: &[String]) -> i32 {
       break;
     }
   }
+  if unexpected {
+    println!("UNEXPECTED-ANSWER {}", expect_key.unwrap_or_default());
+    return 1;
+  }
   0
 }
 
@@ -909,7 +924,27 @@ pub fn single(args: &[String]) -> i32 {
     }
   };
   install_hooks();
-  let o = q.eval();
-  println!("S {} {:016x} {} ## {}", o.class(), o.digest(), q.key(), o.text().replace('\n', " "));
+  // as a one-operation run under the simulator, so that a query that deadlocks on itself or never
+  // returns is reported (class P) instead of hanging the driver
+  let watchdog = Duration::from_secs(20);
+  let runs = match parse_runs(&cold_script(&q.key())) {
+    Ok(r) => r,
+    Err(e) => {
+      eprintln!("single: {}", e);
+      return 2;
+    }
+  };
+  let out = exec_run(&runs[0], false, true, watchdog);
+  if let Some(a) = &out.result.abort {
+    println!("S P 0000000000000000 {} ## {}", q.key(), a.replace('\n', " "));
+    return 0;
+  }
+  match out.evals.first() {
+    Some(e) => println!("S {} {:016x} {} ## {}", e.class, e.digest, q.key(), e.text.replace('\n', " ")),
+    None => {
+      eprintln!("single: no evaluation recorded");
+      return 2;
+    }
+  }
   0
 }
